@@ -13,6 +13,7 @@
 #include "xfrm/wrap.h"
 #include "compat.h"
 #include "sqfs/dir_entry.h"
+#include "common.h"
 
 #include <stdlib.h>
 #include <string.h>
@@ -242,6 +243,20 @@ retry:
 
 	return 0;
 fail:
+	if (ret > 0) {
+		/* End of the archive. Read the rest of the input, so a damaged
+		   or missing tail of a compressed stream (trailer, checksum)
+		   is reported instead of silently ignored. */
+		int err = sqfs_istream_skip(tar->stream, ~((sqfs_u64)0));
+
+		if (err < 0) {
+			sqfs_perror(tar->stream->get_filename(tar->stream),
+				    "reading past the end of the archive",
+				    err);
+			ret = err;
+		}
+	}
+
 	tar->state = ret < 0 ? ret : 1;
 	return tar->state;
 }
